@@ -4,6 +4,7 @@ package main
 import (
 	"pdsim/engine/core"
 	_ "pdsim/engine/e1"
+	_ "pdsim/engine/e2"
 )
 
 func main() { core.Main() }
